@@ -48,10 +48,10 @@ pub struct CCase {
 }
 
 fn sid() -> Identifier {
-    Identifier::numeric(1).unwrap()
+    Identifier::numeric(3).unwrap()
 }
 fn tid() -> Identifier {
-    Identifier::numeric(1).unwrap()
+    Identifier::numeric(2).unwrap()
 }
 
 const PARTS: u32 = 2;
@@ -195,8 +195,8 @@ fn run_workload(case: &CCase, _p: &Params, data: &Path, rec: &Arc<Mutex<Recorder
     let node = Node::start(&case.cfg, data).map_err(|e| fail("start-failed", format!("{e:?}")))?;
     let cl = node.tcp_root().map_err(|e| fail("cannot-connect", e.to_string()))?;
     node.block_on(async {
-        cl.create_stream("s", Some(1)).await?;
-        cl.create_topic(&sid(), "t", PARTS, CompressionAlgorithm::None, None, Some(1), IggyExpiry::NeverExpire, MaxTopicSize::Unlimited).await?;
+        cl.create_stream("s", Some(3)).await?;
+        cl.create_topic(&sid(), "t", PARTS, CompressionAlgorithm::None, None, Some(2), IggyExpiry::NeverExpire, MaxTopicSize::Unlimited).await?;
         Ok::<(), IggyError>(())
     })
     .map_err(|e| fail("setup", e.to_string()))?;
